@@ -4,6 +4,7 @@ import IsoMdl.Driver.Issuance
 import IsoMdl.Driver.Disclosure
 import IsoMdl.Driver.Wire
 import IsoMdl.Driver.Cose
+import IsoMdl.Driver.ReaderAuth
 /-
 Line-protocol driver of the executable model: one operation per input line, one observation per
 output line.  Unknown or malformed operations print `bad-op` (never a default value).
@@ -14,7 +15,7 @@ structure DState where
   world : Option IsoMdl.Session.World := none
   saved : List (String × IsoMdl.Session.World) := []
 
-def stateless : List (List String → Option String) := [ageOp, ivOp, c13Op, c06Op, eqOp, issuanceOp, discOp, cddlOp, wireOp, tag24Op, coseOp]
+def stateless : List (List String → Option String) := [ageOp, ivOp, c13Op, c06Op, eqOp, issuanceOp, discOp, cddlOp, wireOp, tag24Op, coseOp, readerAuthOp]
 
 def step (st : DState) (line : String) : DState × String :=
   let toks := (line.trimAscii.toString.splitOn " ").filter (· ≠ "")
